@@ -327,7 +327,7 @@ func (c *Ctx) rwSpec(w *Wrapper) *Spec {
 		},
 		Cond: func(in *ssa.If, fr *Frame) string {
 			d := p.Desc(in.Cond, fr)
-			if strings.Contains(d, w.Key+".") || strings.Contains(d, "Header).Get") || strings.Contains(d, "ContentLength") || strings.Contains(d, "len(") ||
+			if strings.Contains(d, w.Key+".") || strings.HasPrefix(d, "(param:") || strings.Contains(d, "Header).Get") || strings.Contains(d, "ContentLength") || strings.Contains(d, "len(") ||
 				strings.Contains(d, "matchesContentType") || strings.Contains(d, "shouldCompress") || strings.Contains(d, "containsGzip") || strings.Contains(d, "NewWriterLevel") {
 				return "if " + d
 			}
@@ -451,7 +451,11 @@ func (c *Ctx) analyseWrapper(w *Wrapper) *wrapperFacts {
 					already = true // header was sent before: nothing to do on this path
 				}
 			}
+			// a status net/http would refuse (outside 100..999) handed straight to the embedded writer,
+			// so that it panics on the handler's goroutine: not part of the wrapper's own protocol
+			invalid := c.invalidStatusPath(t)
 			switch {
+			case has && invalid:
 			case has:
 				nFwd++
 			case !already:
@@ -723,7 +727,7 @@ func (c *Ctx) rwHeaderTypestate(w *Wrapper) {
 						sent = true
 					}
 				}
-				if sent {
+				if sent || c.invalidStatusPath(t) {
 					continue
 				}
 				rec := false
@@ -745,6 +749,9 @@ func (c *Ctx) rwHeaderTypestate(w *Wrapper) {
 		// the status sent is the recorded one
 		for name, ts := range f.traces {
 			for _, t := range ts {
+				if name == "WriteHeader" && c.invalidStatusPath(t) {
+					continue
+				}
 				for _, it := range t.Items {
 					if strings.HasPrefix(it.Label, "emb:WriteHeader(") {
 						d := strings.TrimSuffix(strings.TrimPrefix(it.Label, "emb:WriteHeader("), ")")
@@ -1163,4 +1170,17 @@ func (c *Ctx) presetHeadersSurviveInterim() {
 	default:
 		c.Pass(rule, construct, p.InstrPos(site), w.Key+" snapshots the headers set before proxying ("+snap+"), notes interim responses in WriteHeader and restores the snapshot in Header()")
 	}
+}
+
+// invalidStatusPath: the path has found the status parameter outside 100..999 — the escape on which a
+// wrapper hands a status net/http would refuse straight to the embedded writer.
+func (c *Ctx) invalidStatusPath(t *Trace) bool {
+	for _, it := range t.Items {
+		if _, isIf := it.Instr.(*ssa.If); isIf {
+			if r := c.condRel(it); r.OK && r.Pred == "" && r.Y == "" && strings.HasPrefix(r.X, "param:") && (r.Hi != posInf && r.Hi <= 99 || r.Lo != negInf && r.Lo >= 1000) {
+				return true
+			}
+		}
+	}
+	return false
 }
